@@ -238,3 +238,139 @@ Proof.
     + exfalso. inversion ND as [|? ? Hn _]; subst. apply Hn. left.
       rewrite (Hall a), (Hall b); auto; [right; now left|now left].
 Qed.
+
+(** ** C18 listed_fetchable (needs the invariant) *)
+Lemma as_id_vid_ok : forall n, 0 < n <= max_idN -> as_id (vid n) = Some n.
+Proof.
+  intros n [H0 Hn]. unfold as_id, vid, as_int64, to_int64.
+  assert (E : ((Z.of_N n + two63) mod two64 - two63 = Z.of_N n)%Z).
+  { unfold two63, two64, max_idN in *. rewrite Z.mod_small; lia. }
+  rewrite E.
+  assert (B : ((0 <? Z.of_N n)%Z && (Z.of_N n <=? max_id)%Z) = true).
+  { apply andb_true_iff. split; [apply Z.ltb_lt|apply Z.leb_le]; unfold max_id, max_idN in *; lia. }
+  rewrite B. now rewrite N2Z.id.
+Qed.
+
+(** every id in the answer of wamp.session.list (any role filter) is accepted by wamp.session.get *)
+Theorem listed_sessions_fetchable : forall r d1 d2 args kw1 kw2 o1 o2 l x,
+    realm_wf r ->
+    resp_of (meta_call r "wamp.session.list" d1 args kw1 o1) = MYield [ids_value l] [] ->
+    In x l ->
+    exists det, meta_call r "wamp.session.get" d2 [vid x] kw2 o2 = (r, MYield [VDict det] [], None).
+Proof.
+  intros r d1 d2 args kw1 kw2 o1 o2 l x W H Hx.
+  rewrite meta_session_list in H. destruct (role_filter args) as [f|]; [|discriminate].
+  cbn in H. inversion H as [E]. unfold ids_value in E. inversion E as [E'].
+  assert (Hl : In x (map s_id (filter (role_selected f) (r_clients r)))).
+  { assert (Inj : forall a b : list N, map vid a = map vid b -> a = b).
+    { induction a as [|a0 a IH]; intros [|b0 b] Hab; try discriminate; [reflexivity|].
+      cbn in Hab. inversion Hab as [[Hz Ht]]. apply N2Z.inj in Hz. subst. f_equal. now apply IH. }
+    apply Inj in E'. rewrite E'. exact Hx. }
+  apply in_map_iff in Hl. destruct Hl as (s & <- & Hs). apply filter_In in Hs. destruct Hs as [Hs _].
+  rewrite meta_session_get. cbn [arg0 nth_error bind].
+  rewrite (as_id_vid_ok _ (rw_ids r W s Hs)).
+  destruct (find_session (r_clients r) (s_id s)) as [s'|] eqn:F.
+  - eexists. reflexivity.
+  - exfalso. apply (In_find_session _ _ Hs). exact F.
+Qed.
+
+(** every id in the answer of wamp.subscription.list is accepted by wamp.subscription.get *)
+Theorem listed_subscriptions_fetchable : forall r k0 d2 kw2 o2 kind x,
+    realm_wf r -> ids_below k0 r -> k0 <= max_idN ->
+    In x (match sub_ids_by (r_broker r) kind with VList l => l | _ => [] end) ->
+    exists id s, x = vid id /\ nget (b_subs (r_broker r)) id = Some s /\
+                 meta_call r "wamp.subscription.get" d2 [x] kw2 o2 = (r, MYield [sub_dict s] [], None).
+Proof.
+  intros r k0 d2 kw2 o2 kind x W I Hk Hx. unfold sub_ids_by, ids_value in Hx.
+  apply in_map_iff in Hx. destruct Hx as (id & <- & Hid).
+  apply in_flat_map in Hid. destruct Hid as ([id' s] & Hin & Hm).
+  assert (id' = id) by (destruct (mkind_of (sub_match s)), kind; cbn in Hm; tauto). subst id'.
+  pose proof (wf_core _ (rw_broker r W)) as Wc.
+  assert (G : nget (b_subs (r_broker r)) id = Some s) by (apply In_nget; [apply (wf_subs_nodup _ Wc)|exact Hin]).
+  exists id, s. split; [reflexivity|]. split; [exact G|].
+  rewrite meta_subscription_get. cbn [arg0 nth_error bind].
+  pose proof (wf_sub_le _ Wc id s G) as Hle. destruct I as (I1 & _).
+  rewrite as_id_vid_ok by lia. cbn [bind]. rewrite G. reflexivity.
+Qed.
+
+(** PARTIAL for registrations: the dealer invariant bounds registration ids by
+    the generator from above only; the statement carries [0 < id] (every id the
+    generator hands out is positive) as a hypothesis. *)
+Theorem listed_registrations_fetchable_partial : forall r k0 d2 kw2 o2 kind x,
+    realm_wf r -> ids_below k0 r -> k0 <= max_idN ->
+    In x (match reg_ids_by (r_dealer r) kind with VList l => l | _ => [] end) ->
+    exists id, x = vid id /\
+      (0 < id ->
+       exists rg, nget (d_regs (r_dealer r)) id = Some rg /\
+                  meta_call r "wamp.registration.get" d2 [x] kw2 o2 = (r, MYield [reg_dict rg] [], None)).
+Proof.
+  intros r k0 d2 kw2 o2 kind x W I Hk Hx. unfold reg_ids_by, ids_value in Hx.
+  apply in_map_iff in Hx. destruct Hx as (id & <- & Hid).
+  apply in_map_iff in Hid. destruct Hid as ([p id'] & E & Hin). cbn in E. subst id'.
+  exists id. split; [reflexivity|]. intros Hpos.
+  pose proof (rw_dealer r W) as Wd.
+  assert (G : sget (d_map (r_dealer r) kind) p = Some id).
+  { apply (In_aget String.eqb String.eqb_spec); [apply (rw_mapkeys _ (wf_regs _ _ Wd))|exact Hin]. }
+  destruct (rw_map _ (wf_regs _ _ Wd) _ _ _ G) as (rg & Hr & _).
+  exists rg. split; [exact Hr|].
+  rewrite meta_registration_get. cbn [arg0 nth_error bind].
+  destruct (rw_reg _ (wf_regs _ _ Wd) _ _ Hr) as (_ & _ & Hle). destruct I as (_ & I2 & _).
+  rewrite as_id_vid_ok by lia. cbn [bind]. rewrite Hr. reflexivity.
+Qed.
+
+(** ** Non-vacuity witnesses for C05 *)
+Module C05Ex.
+  Definition cfg0 : config := mkConfig false false false true true false [mkHistCfg "h" "exact" 5] None.
+  Definition hello0 : dict :=
+    [("roles", VDict [("subscriber", VDict []); ("publisher", VDict []);
+                      ("caller", VDict []); ("callee", VDict [])])].
+  (** 11 subscribes and registers "p", stores a testament, serves a call of 12
+      and a call of its own; 10 observes the meta topics; 12 subscribes to the
+      testament's topic *)
+  Definition ops0 : list op :=
+    [OJoin 10 false hello0; OJoin 11 false hello0; OJoin 12 false hello0;
+     OMsg 11 (CSubscribe 1 [] "t") 0; OMsg 11 (CRegister 2 [] "p") 0;
+     OMsg 10 (CSubscribe 3 [("match", vstr "prefix")] "wamp.") 0;
+     OMsg 12 (CSubscribe 4 [] "bye") 0;
+     OMsg 11 (CCall 5 [] "wamp.session.add_testament" [vstr "bye"; VList [vnat 1]; VDict []] []) 0;
+     OMsg 12 (CCall 7 [] "p" [] []) 0;
+     OMsg 11 (CCall 8 [] "p" [] []) 0].
+  Definition r0 : realm := fst (run (init_realm cfg0) ops0).
+
+  Lemma ops_ok : Forall op_ok ops0.
+  Proof. unfold ops0. repeat constructor; apply N.ltb_lt || apply N.leb_le; reflexivity. Qed.
+
+  Lemma wf0 : realm_wf r0 /\ ids_below (k0 cfg0 + 10) r0 /\ k0 cfg0 + 10 < max_idN /\ client r0 11.
+  Proof.
+    destruct (init_realm_wf cfg0) as [W I]; [apply N.leb_le; reflexivity|].
+    destruct (run_wf ops0 (init_realm cfg0) (k0 cfg0) W I ops_ok) as [W1 I1]; [apply N.leb_le; reflexivity|].
+    split; [exact W1|]. split; [exact I1|]. split; [apply N.ltb_lt; reflexivity|].
+    unfold client. vm_compute. discriminate.
+  Qed.
+
+  Lemma served : cget (d_invs (r_dealer r0)) (11, 1) = Some (mkInv (12, 7) 11 false false None []) /\
+                 cget (d_invs (r_dealer r0)) (11, 2) = Some (mkInv (11, 8) 11 false false None []).
+  Proof. vm_compute. split; reflexivity. Qed.
+
+  (** the departure of 11: the call of 12 it served is answered (and so is its
+      own call to itself — to the leaver); subscription on_delete; registration
+      on_unregister, on_delete; its testament (to 12); on_leave last *)
+  Lemma drop11 :
+    snd (step r0 (ODrop 11)) =
+    [(12, RError c_CALL 7 [] e_canceled [vstr "callee gone"] []);
+     (11, RError c_CALL 8 [] e_canceled [vstr "callee gone"] []);
+     (10, REvent 3 12 [("topic", vuri t_sub_on_delete)] [vid 11; vid 2] []);
+     (10, REvent 3 13 [("topic", vuri t_reg_on_unregister)] [vid 11; vid 24] []);
+     (10, REvent 3 14 [("topic", vuri t_reg_on_delete)] [vid 11; vid 24] []);
+     (12, REvent 4 15 [] [vnat 1] []);
+     (10, REvent 3 16 [("topic", vuri t_on_leave)] [vid 11; vstr "<gen>"; vstr "anonymous"] [])].
+  Proof. vm_compute. reflexivity. Qed.
+
+  (** sizes: before, after 11 left, after everybody left = initial *)
+  Lemma sizes_back :
+    sizes r0 = [3; 1; 3; 1; 0; 4; 3; 1; 24; 0; 0; 24; 2; 2; 2; 2] /\
+    sizes (fst (step r0 (ODrop 11))) = [2; 0; 2; 1; 0; 3; 2; 1; 23; 0; 0; 23; 0; 0; 0; 1] /\
+    sizes (fst (run r0 [ODrop 11; ODrop 10; OMsg 12 (CGoodbye [] "x") 0])) = sizes (init_realm cfg0) /\
+    r_clients (fst (run r0 [ODrop 11; ODrop 10; OMsg 12 (CGoodbye [] "x") 0])) = [].
+  Proof. vm_compute. repeat split; reflexivity. Qed.
+End C05Ex.
